@@ -592,6 +592,7 @@ func initReflectOnce(i *interpreter) {
 	initReflect(i)
 	i.rtypeMethods["FieldByName"] = newMethod(i.reflectPackage, rtypeType, "FieldByName")
 	i.rtypeMethods["Key"] = newMethod(i.reflectPackage, rtypeType, "Key")
+	moreRtypeMethods(i)
 	reflectDone = i
 }
 
